@@ -239,3 +239,25 @@ package utils
 //@   trusted schema lookup and type conversion; specified as a relation between result and arguments only
 //@   noeffect
 //@   ensures r1 == nil ==> yangForm(r0, p, tv)
+
+// ---------------------------------------------------------------------------
+// C20: the expansion of what a client or a device sends. The converter is built by NewConverter around a schema client;
+// assumed of the schema client: a successful lookup answers with a schema element.
+//@ iface SchemaClientBound.GetSchemaSdcpbPath
+//@   noeffect
+//@   ensures answers_with_a_schema: r1 == nil ==> r0 != nil && r0.Schema != nil && r0.Schema.Schema != nil
+//@ func (*Converter).ExpandUpdates
+//@   props C20
+//@   requires c != nil && c.schemaClientBound != nil
+//@ func (*Converter).ExpandUpdate
+//@   props C20
+//@   requires c != nil && c.schemaClientBound != nil
+//@ func (*Converter).ExpandUpdateKeysAsLeaf
+//@   props C20
+//@   requires c != nil && c.schemaClientBound != nil
+//@ func (*Converter).ExpandContainerValue
+//@   props C20
+//@   requires c != nil && c.schemaClientBound != nil && cs != nil && cs.Container != nil
+//@ func (*Converter).ConvertNotificationTypedValues
+//@   props C20
+//@   requires c != nil && c.schemaClientBound != nil
